@@ -25,15 +25,39 @@ var errBrokenPipe = errors.New("verif: broken pipe")
 var errReadFail = errors.New("verif: read failed")
 
 type c01World struct {
-	// ground truth, written by harness threads while they hold the baton
-	answered   map[string]string // method tag -> "ok" | "err"
-	readEnded  string            // "", "eof", "err"
-	writeFault map[string]string
+	// ground truth, written by harness threads while they hold the baton.  Per-call facts live in
+	// c01Facts (fixed slots, no maps): the free-running race pass runs the same body with real
+	// concurrency, where a shared map would trip the runtime's fatal "concurrent map writes" and
+	// take the whole worker down, while locking here would add happens-before edges between the
+	// SDK goroutines that call Write and blind the detector.
+	answered   c01Facts // method tag -> "ok" | "err"
+	readEnded  string   // "", "eof", "err"
+	writeFault c01Facts
 	brokenW    bool
 	closeCalld bool
 	waitDone   bool
-	cancelled  map[int]bool
+	cancelled  [c01Slots]bool
 }
+
+const c01Slots = 8
+
+// c01Facts maps the method tags of a scenario ("m0".."m6", "bad") to a string, one fixed slot per tag.
+type c01Facts [c01Slots]string
+
+func c01Slot(tag string) int {
+	if tag == "bad" {
+		return c01Slots - 1
+	}
+	i := -1
+	fmt.Sscanf(tag, "m%d", &i)
+	if i < 0 || i >= c01Slots-1 {
+		panic("verif: c01 harness: no slot for method " + tag)
+	}
+	return i
+}
+
+func (f *c01Facts) set(tag, v string)     { f[c01Slot(tag)] = v }
+func (f *c01Facts) get(tag string) string { return f[c01Slot(tag)] }
 
 type c01T struct {
 	w      *c01World
@@ -67,10 +91,10 @@ func (f *c01T) Write(ctx context.Context, m jsonrpc2.Message) error {
 	if f.faults {
 		switch vs.Choose("fault-write", 3, 1) {
 		case 1:
-			f.w.writeFault[r.Method] = "rejected"
+			f.w.writeFault.set(r.Method, "rejected")
 			return fmt.Errorf("%w: not now", jsonrpc2.ErrRejected)
 		case 2:
-			f.w.writeFault[r.Method] = "broken"
+			f.w.writeFault.set(r.Method, "broken")
 			f.w.brokenW = true
 			return errBrokenPipe
 		}
@@ -120,7 +144,7 @@ type c01Opts struct {
 }
 
 func c01Scenario(o c01Opts) vs.Verdict {
-	w := &c01World{answered: map[string]string{}, writeFault: map[string]string{}, cancelled: map[int]bool{}}
+	w := &c01World{}
 	ft := &c01T{w: w, outbox: make(chan *jsonrpc2.Request, 8), inbox: make(chan jsonrpc2.Message, 16), rerr: make(chan error, 1), closed: make(chan struct{}), faults: o.faults}
 	var internalErr string
 	var rwc Connection = ft
@@ -158,14 +182,14 @@ func c01Scenario(o c01Opts) vs.Verdict {
 			}
 			switch mode {
 			case 0:
-				w.answered[r.Method] = "ok"
+				w.answered.set(r.Method, "ok")
 				ft.inbox <- &jsonrpc2.Response{ID: r.ID, Result: okPayload(r.Method)}
 			case 1:
-				w.answered[r.Method] = "err"
+				w.answered.set(r.Method, "err")
 				ft.inbox <- &jsonrpc2.Response{ID: r.ID, Error: &jsonrpc2.WireError{Code: c01ErrCode(r.Method), Message: "peer error " + r.Method, Data: json.RawMessage(`{"d":"` + r.Method + `"}`)}}
 			case 2: // a response to an id that was never issued, then the real one
 				ft.inbox <- &jsonrpc2.Response{ID: jsonrpc2.Int64ID(1000 + id), Result: okPayload("bogus")}
-				w.answered[r.Method] = "ok"
+				w.answered.set(r.Method, "ok")
 				ft.inbox <- &jsonrpc2.Response{ID: r.ID, Result: okPayload(r.Method)}
 			}
 		}
@@ -237,7 +261,7 @@ func c01Scenario(o c01Opts) vs.Verdict {
 				results[i] = "ok"
 				if gotTag != tag {
 					fail("wrong-response", "caller %d received the payload of %q", i, gotTag)
-				} else if w.answered[tag] != "ok" {
+				} else if w.answered.get(tag) != "ok" {
 					fail("phantom-success", "caller %d succeeded although the peer never answered %s with a result", i, tag)
 				}
 			default:
@@ -245,7 +269,7 @@ func c01Scenario(o c01Opts) vs.Verdict {
 				var we *jsonrpc2.WireError
 				switch {
 				case errors.As(err, &we) && we.Code == c01ErrCode(tag):
-					if w.answered[tag] != "err" || we.Message != "peer error "+tag || string(we.Data) != `{"d":"`+tag+`"}` {
+					if w.answered.get(tag) != "err" || we.Message != "peer error "+tag || string(we.Data) != `{"d":"`+tag+`"}` {
 						fail("error-payload", "caller %d got error payload %+v not matching the peer's answer", i, we)
 					}
 					results[i] = "peererr"
@@ -255,12 +279,12 @@ func c01Scenario(o c01Opts) vs.Verdict {
 					}
 					results[i] = "cancelled"
 				case errors.Is(err, jsonrpc2.ErrRejected):
-					if w.writeFault[tag] != "rejected" {
+					if w.writeFault.get(tag) != "rejected" {
 						fail("spurious-rejected", "caller %d got jsonrpc2.ErrRejected but its write was not rejected", i)
 					}
 					results[i] = "rejected"
 				case errors.Is(err, errBrokenPipe):
-					if w.writeFault[tag] != "broken" {
+					if w.writeFault.get(tag) != "broken" {
 						fail("spurious-broken", "caller %d got the broken-pipe error of another write", i)
 					}
 					results[i] = "broken"
@@ -293,7 +317,7 @@ func c01Scenario(o c01Opts) vs.Verdict {
 			}
 			if err == nil {
 				fail("unmarshalable-call-succeeded", "a call whose parameters cannot be marshalled returned no error")
-			} else if _, answered := w.answered["bad"]; answered {
+			} else if w.answered.get("bad") != "" {
 				fail("unmarshalable-call-written", "a call whose parameters cannot be marshalled reached the peer")
 			}
 			done <- -3
